@@ -226,8 +226,28 @@ def run_invalid(ctx: Ctx, rec: Recorder) -> None:
                     rec.fail({"invalid": repr(bad), "field": "request-float"}, "invalid-timeout-wrong-exception", {"value": repr(bad), "exc": type(e).__name__}, repr(e))
 
 
+def prime_valid_timeouts() -> None:
+    """Valid timeouts that compare equal to an invalid value (1 == 1.0 == True, 0 < x): whether a value is accepted must
+    not depend on what was validated earlier in the process."""
+    import urllib3
+    from urllib3.util import Timeout
+
+    for v in (1, 1.0, 2, 0.5, 10, 3.0):
+        Timeout(total=v, connect=v, read=v)
+        Timeout.from_float(v)
+        urllib3.HTTPConnectionPool("t.test", 80, timeout=v).close()
+    with netsim.Net(TimedServer([{}, {}])) as net:
+        pool = urllib3.HTTPConnectionPool("t.test", 80, retries=False, timeout=1)
+        pool.urlopen("GET", "/", timeout=1.0)
+        pool.close()
+
+
 def run_shard(ctx: Ctx, rec: Recorder) -> None:
     run_invalid(ctx, rec)
+    # ... and again after equal-valued valid timeouts have been used (validation must not be history dependent)
+    prime_valid_timeouts()
+    run_invalid(ctx, rec)
+    rec.mon("invalid_after_priming")
     idx = 0
     stride = ctx.pick(2, 1)
     # full grid, one placement at a time; two requests per pool (the second reuses the connection unless the first failed)
